@@ -182,18 +182,27 @@ Proof.
   - rewrite G_init_delay. lia.
   - intros _ t [].
 Qed.
+Lemma teffM_pre s s1 m : teff s s1 -> teffM s1 m -> teffM s m.
+Proof. unfold teffM. destruct m as [[s2 e2]|]; auto. intros. eapply teff_trans; eauto. Qed.
+Lemma teff_enq s f : is_kfunctor f = false -> teff s (enq s f).
+Proof.
+  intros Hf. apply (teff_mk _ _ [] [f]); cbn; auto; try (rewrite app_nil_r; auto).
+  - intros _ t [].
+  - unfold has_k. cbn. rewrite Hf. reflexivity.
+Qed.
+Lemma teff_set_connection s v : teff s (set_connection s v).
+Proof. ts. Qed.
 Lemma handleClose_teff s c : teffM s (handleClose s c).
 Proof.
   unfold handleClose. destruct (nth_error (conns s) c) as [o|]; [|exact I].
   apply teffM_bind; [ts|]. intros s1 T1. destruct (ccb o).
   - unfold removeConnection. destruct (negb _); [exact I|]. destruct (connection s1); [|exact I]. destruct (negb _); [exact I|].
     assert (E : teff s1 (enq (set_connection s1 None) (FConnDestroyed c))).
-    { apply (teff_mk _ _ [] [FConnDestroyed c]); cbn; auto; try (rewrite app_nil_r; auto). intros _ t []. }
+    { eapply teff_trans; [apply teff_set_connection|apply teff_enq; reflexivity]. }
     destruct (_ && _).
-    + pose proof (restart_teff (enq (set_connection s1 None) (FConnDestroyed c))) as R. unfold teffM in *.
-      destruct (restart _) as [[s2 e2]|]; auto. eapply teff_trans; eauto.
+    + eapply teffM_pre; [exact E|apply restart_teff].
     + exact E.
-  - apply (teff_mk _ _ [] [FConnDestroyed c]); cbn; auto; try (rewrite app_nil_r; auto). intros _ t [].
+  - apply (teff_enq s1). reflexivity.
 Qed.
 Lemma conn_shutdown_teff s c b : teffM s (conn_shutdown s c b).
 Proof.
@@ -310,13 +319,16 @@ Proof.
   intros E1 E2 E3 E4 E5 E6 (A1 & A2 & A3 & A4 & (app & A5 & A6)). unfold reff. rewrite <- E1, <- E2, <- E3, <- E4, <- E5.
   split; [auto|]. split; [auto|]. split; [auto|]. split; [exact A4|]. exists app. rewrite A5, E6, <- app_assoc. auto.
 Qed.
+Lemma reff_wrap s s0 m :
+  now s0 = now s -> alive s0 = alive s -> k_dead s0 = k_dead s -> k_delay s0 = k_delay s -> timers s0 = timers s ->
+  pending s0 = pending s ++ [FResetChannel] -> teffM s0 m -> match m with Some (s1, _) => reff s s1 | None => True end.
+Proof. intros E1 E2 E3 E4 E5 E6 T. destruct m as [[s1 e]|]; auto. eapply reff_of_teff; eauto. Qed.
 Lemma handleWrite_reff s e b i : k_chan s = Some (i, true) -> k_state s = KConnecting ->
   match handleWrite s e b with Some (s1, _) => reff s s1 | None => True end.
 Proof.
   intros Hc Hs. unfold handleWrite, removeAndResetChannel. rewrite Hs, Hc. cbn [kstate_eqb].
   assert (R : match retry (enq (set_k_chan s (Some (i, false))) FResetChannel) i with Some (s1, _) => reff s s1 | None => True end).
-  { pose proof (retry_teff (enq (set_k_chan s (Some (i, false))) FResetChannel) i) as T. unfold teffM in T.
-    destruct (retry _ i) as [[s1 e1]|]; auto. eapply reff_of_teff; [..|exact T]; reflexivity. }
+  { apply (reff_wrap s (enq (set_k_chan s (Some (i, false))) FResetChannel)); try reflexivity. apply retry_teff. }
   destruct (negb _); [exact R|]. destruct b; [exact R|]. cbn. destruct (k_connect s).
   - unfold newConnection. cbn. destruct (negb (alive s)); [exact I|]. unfold reff. cbn.
     split; [auto|]. split; [auto|]. split; [auto|]. split; [|exists []; auto].
@@ -328,16 +340,14 @@ Lemma handleError_reff s i : k_chan s = Some (i, true) -> k_state s = KConnectin
   match handleError s with Some (s1, _) => reff s s1 | None => True end.
 Proof.
   intros Hc Hs. unfold handleError, removeAndResetChannel. rewrite Hs, Hc. cbn [kstate_eqb].
-  pose proof (retry_teff (enq (set_k_chan s (Some (i, false))) FResetChannel) i) as T. unfold teffM in T.
-  destruct (retry _ i) as [[s1 e1]|]; auto. eapply reff_of_teff; [..|exact T]; reflexivity.
+  apply (reff_wrap s (enq (set_k_chan s (Some (i, false))) FResetChannel)); try reflexivity. apply retry_teff.
 Qed.
 Lemma stopInLoop_reff s i : k_chan s = Some (i, true) -> k_state s = KConnecting ->
   match stopInLoop s with Some (s1, _) => reff s s1 | None => True end.
 Proof.
   intros Hc Hs. unfold stopInLoop, removeAndResetChannel. rewrite Hs. cbn [kstate_eqb].
   change (k_chan (set_k_state s KDisconnected)) with (k_chan s). rewrite Hc.
-  pose proof (retry_teff (enq (set_k_chan (set_k_state s KDisconnected) (Some (i, false))) FResetChannel) i) as T. unfold teffM in T.
-  destruct (retry _ i) as [[s1 e1]|]; auto. eapply reff_of_teff; [..|exact T]; reflexivity.
+  apply (reff_wrap s (enq (set_k_chan (set_k_state s KDisconnected) (Some (i, false))) FResetChannel)); try reflexivity. apply retry_teff.
 Qed.
 
 (* the invariant across such a step; `extra` = a stopInLoop that was dequeued just before (RunOne / RunPending) *)
@@ -727,7 +737,12 @@ Proof.
   destruct (step s o) as [s' ev| |]; auto. intros H. apply andb_prop in H. destruct H. split; auto.
 Qed.
 Lemma live_loop_examples : ladmissible 0 init ex_backoff /\ ladmissible 0 init ex_retry_cycle /\ ladmissible 0 init ex_foreign.
-Proof. repeat split; apply ladmissible_b_ok; vm_compute; reflexivity. Qed.
+Proof. split; [|split]; apply ladmissible_b_ok; vm_compute; reflexivity. Qed.
+Lemma ladmissible_b_complete l : forall q s, ladmissible q s l -> ladmissible_b q s l = true.
+Proof.
+  induction l as [|o r IH]; intros q s; cbn [ladmissible_b ladmissible]; auto.
+  destruct (step s o) as [s' ev| |]; auto. intros [H1 H2]. rewrite H1. cbn. auto.
+Qed.
 (* ... and the stalled loop is what it excludes *)
 Lemma stalled_not_live : ~ ladmissible 0 init [Destroy; TimerFire; RunPending] /\ ~ ladmissible 0 init [Connect; EvError; TimerFire].
-Proof. split; vm_compute; intuition congruence. Qed.
+Proof. split; intros H; apply ladmissible_b_complete in H; vm_compute in H; discriminate H. Qed.
